@@ -164,8 +164,8 @@ def generate(rng, seed, part):
                         "far": rng.choice([-9.5, 11.25, 40.0])})
         if rng.random() < 0.05:
             # ... or an empty clone / a full copy of it (a second accumulator over "the same bins")
-            ops.append({"op": "side", "how": rng.choice(["copy_empty", "copy_empty", "copy"]), "axis": 0,
-                        "far": rng.choice([-9.5, 11.25, 40.0])})
+            ops.append({"op": "side", "how": rng.choice(["copy_empty", "copy_empty", "copy", "edit_edges", "edit_edges"]),
+                        "axis": rng.randrange(ndim), "far": rng.choice([-9.5, 11.25, 40.0])})
     return {"property": PROPERTY, "scenario": "adaptive_stream", "config": cfg, "entries": entries, "ops": ops}
 
 
@@ -433,6 +433,24 @@ def execute(plan, ctx):
         first_before = [float(b.bins[0, 0]) if b.bin_count else None for b in h.binnings]
         if op["op"] == "side":
             if any(b.bin_count == 0 for b in h.binnings):
+                continue
+            if op["how"] == "edit_edges":
+                # a copy hands out its edges and the caller turns them into bin centres in place - the copy's own
+                # business; the accumulator (same grid, same state) must not notice
+                ok, side = attempt(h.copy)
+                if ok:
+                    ax = op["axis"] % ndim
+
+                    def edit():
+                        e = side.edges if ndim == 1 else side.numpy_bins[ax]
+                        e += widths[ax] / 2
+                        b = side.bins if ndim == 1 else side.bins[ax]
+                        b += widths[ax] / 2
+                    ok, res = attempt(edit)
+                    ctx.ev("other", "side:edit_edges", ax, "ok" if ok else exc_tag(res))
+                    ctx.abstract("side", "edit_edges", ok)
+                    ctx.fault("derived_object_filled")
+                    prev = check_all([], prev, "edit-of-edges-handed-out-by-a-copy")
                 continue
             if op["how"] in ("copy_empty", "copy"):
                 ok, side = attempt(h.copy, include_frequencies=op["how"] == "copy")
